@@ -37,7 +37,10 @@ where
     usize: num_traits::AsPrimitive<StorageT>,
     StorageT: 'static + num_traits::PrimInt + num_traits::Unsigned,
 {
-    let prod = &ast.prods[usize::from(pidx)];
+    // Productions which the grammar adds (e.g. for implicit tokens) have no counterpart in the AST.
+    let Some(prod) = ast.prods.get(usize::from(pidx)) else {
+        return (Vec::new(), Vec::new());
+    };
     prod.symbols
         .iter()
         .map(|sym| match sym {
@@ -313,7 +316,7 @@ impl<'a> SpannedDiagnosticFormatter<'a> {
             let shift_name = grm.token_name(*s_tok_idx).unwrap();
             let reduce_name = grm.rule_name_str(r_rule_idx);
             let (_r_prod_names, mut r_prod_spans) = pidx_prods_data(ast, *r_prod_idx);
-            let fallback_span = ast.prods[usize::from(*r_prod_idx)].prod_span;
+            let fallback_span = grm.prod_span(*r_prod_idx);
             out.pushln(
                 self.file_location_msg(
                     format!(
